@@ -324,4 +324,16 @@ theorem flipped_placement (H image_y tile_y h v : Int) (hv : image_y ≤ v ∧ v
   simp only [Gen.MultiTan.flip_image_y, Gen.MultiTan.flip_tile_y]
   omega
 
+/-! ### non-vacuity -/
+
+/-- two inputs, 100 × 50 with reference pixel (11, 21) and 40 × 60 with reference pixel (−29, 6): a 100 × 75 mosaic,
+the second input at (40, 15), mosaic reference pixel (11, 21) whichever input comes last -/
+example :
+    let i1 : Input := ⟨10, 20, 100, 50, fun _ _ => []⟩
+    let i2 : Input := ⟨-30, 5, 40, 60, fun _ _ => []⟩
+    bounds [i1, i2] = some (-10, 89, -20, 54) ∧ size (-10, 89, -20, 54) = (100, 75) ∧
+    place (-10, 89, -20, 54) i2 = (40, 15, 40, 60) ∧ bounds [i2, i1] = some (-10, 89, -20, 54) ∧
+    Gen.MultiTan.global_crpix i2.c1 i2.c2 (ext i2).1 (ext i2).2.2.1 (-10) (-20) = (11, 21) ∧
+    Gen.MultiTan.global_crpix i1.c1 i1.c2 (ext i1).1 (ext i1).2.2.1 (-10) (-20) = (11, 21) := by decide
+
 end C09
